@@ -512,7 +512,15 @@ def fund_and_build(
     for j in range(n_pay):
         amount = max(600, budget // n_pay - ch.draw(1000, "pay.jitter"))
         script = ch.pick(
-            [b"\x00\x14" + bytes([0xA0 + j]) * 20, b"\x76\xa9\x14" + bytes([0xB0 + j]) * 20 + b"\x88\xac", b"\x51\x20" + hashlib.sha256(bytes([j])).digest(), b"\xa9\x14" + bytes([0xC0 + j]) * 20 + b"\x87", b"\x00\x20" + bytes([0xD0 + j]) * 32],
+            [
+                b"\x00\x14" + bytes([0xA0 + j]) * 20,
+                b"\x76\xa9\x14" + bytes([0xB0 + j]) * 20 + b"\x88\xac",
+                b"\x51\x20" + hashlib.sha256(bytes([j])).digest(),
+                b"\xa9\x14" + bytes([0xC0 + j]) * 20 + b"\x87",
+                b"\x00\x20" + bytes([0xD0 + j]) * 32,
+                # a data carrier whose length sits on the CompactSize boundary: 252, 253, 254 bytes in all
+                b"\x6a\x4c" + bytes([249 + j]) + bytes([j]) * (249 + j),
+            ],
             "pay.script",
         )
         payments.append(TxOut(amount, script))
